@@ -395,7 +395,7 @@ def r26d_tokenizer_precedence(ctx):
     """the tokenizer's three lexical states nest the way the file format says: a '#' starts a comment only outside
     quotes and outside block comments; '/*' opens a block comment only outside quotes; lines are split on every kind
     of line end that str.split() treats as white space"""
-    R = 'R26'
+    R = 'R26d'
     repo = ctx.repo
     cls = repo.cls(PROFILE)
     tk = cls.methods.get(cls.mangle('__bltBlob')) or cls.methods.get('__bltBlob')
